@@ -101,6 +101,16 @@ theorem termination_precondition :
     (Gen.prefixFns.map (·.1)).contains TokType.eof.toNat = false ∧
     (Gen.precedences.map (·.1)).contains TokType.eof.toNat = false := by decide
 
+/-- the operator / delimiter dispatch of the Go lexer (`switch l.CurrentChar` of baseNextToken, re-extracted on every
+    run as (first character, look-ahead character or 0, token constant)): on each listed character, with the listed
+    look-ahead, the model lexer returns the same token constant, spelled with exactly those bytes, and stops behind them -/
+theorem lexer_dispatch :
+    (∀ e ∈ Gen.lexerDispatch,
+      (baseNextToken false [] { rest := if e.2.1 = 0 then [e.1, 59] else [e.1, e.2.1, 59] }).1.type.toNat = e.2.2 ∧
+      (baseNextToken false [] { rest := if e.2.1 = 0 then [e.1, 59] else [e.1, e.2.1, 59] }).1.lit = (if e.2.1 = 0 then [e.1] else [e.1, e.2.1]) ∧
+      (baseNextToken false [] { rest := if e.2.1 = 0 then [e.1, 59] else [e.1, e.2.1, 59] }).2.rest = [59]) ∧
+    Gen.lexerDispatch.length = 31 := by decide
+
 /-- Base64 alphabet and map version -/
 theorem base64 : Gen.base64Chars = base64Table ∧ Gen.base64Chars.length = 64 := by decide
 theorem map_version : Gen.sourceMapVersion = 3 := by decide
